@@ -358,6 +358,8 @@ func init() {
 					}
 				}
 			}
+			// zero channels with a length above the capacity: still an allocator "with one field equal to 0"
+			shapes = append(shapes, shape{0, 1, 0}, shape{0, 4, 0}, shape{0, 8, 4}, shape{0, 3, 2})
 			wide := []shape{{9, 0, 0}, {9, 0, 3}, {65, 0, 0}, {65, 0, 2}, {256, 0, 0}, {256, 0, 2}, {300, 0, 1}, {1024, 0, 0}, {2, 0, 1100}, {0, 1100, 1100}, {3, 0, 5000}}
 			for t := 0; t < dyn.NB; t++ {
 				shs := shapes
